@@ -66,4 +66,12 @@ theorem signJWSHeaders_json (h out : Headers) (hj : AllJson h) (hok : signJWSHea
     cases hok
     exact ⟨rfl, hnone⟩
 
+theorem same_errDetail (keyDir : String) {s t : Store} (h : SameButKeys s t) (q : Req) (e : KErr) :
+    errDetail keyDir s q e = errDetail keyDir t q e := by
+  have href : ∀ kid, s.ref kid = t.ref kid := fun kid => same_ref h kid
+  have : errText keyDir s q e = errText keyDir t q e := by
+    cases e <;> cases q <;> simp only [errText, href] <;> (try rfl)
+  unfold errDetail
+  rw [this]
+
 end Nuts.C03
